@@ -94,6 +94,11 @@ type Script struct {
 	ProtoBody bool   `json:"proto_body,omitempty"`
 	Deadline  string `json:"deadline,omitempty"`
 
+	// BinPad: the raw fronts (HTTP, gRPC-web, WebSocket) spell "-bin"
+	// metadata values as padded standard base64 instead of unpadded (both
+	// are legal; grpc-go itself never pads).
+	BinPad bool `json:"bin_padded,omitempty"`
+
 	// Hop: class of HTTP/1 connection header fields added to the request
 	// (HTTP front); InProc: the request is handed to the Mux in-process.
 	Hop    string `json:"hop,omitempty"`
@@ -123,6 +128,9 @@ func (s *Script) String() string {
 	}
 	if s.JSONEsc {
 		meta += " backslash-as-u005c"
+	}
+	if s.BinPad {
+		meta += " bin-padded"
 	}
 	if s.Unk != "" {
 		meta += " unknown-fields=" + s.Unk
@@ -744,6 +752,32 @@ func unkScripts(rng *rand.Rand) []*Script {
 	return out
 }
 
+// binScripts: "-bin" metadata of every length 0..9 in both base64 spellings
+// on every raw front (and, unpadded by construction, on the gRPC front).
+func binScripts(rng *rand.Rand) []*Script {
+	var out []*Script
+	for _, front := range []string{"http", "web", "ws", "grpc"} {
+		var pool []structure
+		if front == "ws" {
+			pool = wsStructures()
+		} else {
+			pool = structures(front)
+		}
+		for _, pad := range []bool{false, true} {
+			if pad && front == "grpc" {
+				continue
+			}
+			for k := 0; k < 3; k++ {
+				s := materialise(rng, pool[rng.Intn(len(pool))])
+				s.MDClass, s.BinPad = "bin-lengths", pad
+				s.MD = drawMD(rng, s.MDClass)
+				out = append(out, s)
+			}
+		}
+	}
+	return out
+}
+
 // pipelined enumerates the full-duplex scripts: a bidi echo in which the
 // client keeps sending (its own goroutine) while the replies flow back, with
 // and without compression, so that both directions of the proxy work at the
@@ -792,7 +826,7 @@ func drawStatus(rng *rand.Rand, front string) St {
 	return St{Code: code, Msg: msgOf(mc, code), MsgC: mc, Det: rng.Intn(3)}
 }
 
-var mdClasses = []string{"none", "one", "multi", "bin", "mixed", "punct", "bin-ctl", "bin-high", "bin-printable", "empty", "bin-long", "long", "grpc-prefixed", "reserved-lookalike", "mixed-case"}
+var mdClasses = []string{"none", "one", "multi", "bin", "mixed", "punct", "bin-ctl", "bin-high", "bin-printable", "empty", "bin-long", "long", "grpc-prefixed", "reserved-lookalike", "mixed-case", "bin-lengths"}
 
 func drawMD(rng *rand.Rand, class string) []KV {
 	binv := func() []byte {
@@ -814,6 +848,15 @@ func drawMD(rng *rand.Rand, class string) []KV {
 		return b
 	}
 	switch class {
+	case "bin-lengths": // every length 0..9 (all residues mod 3: no, one and two padding characters), single and multi-valued
+		var out []KV
+		for n := 0; n <= 9; n++ {
+			out = append(out, KV{fmt.Sprintf("x-vf-b%d-bin", n), rangeBytes(0x00, 0xff, n)})
+		}
+		for _, n := range []int{1, 2, 3, 4, 7} {
+			out = append(out, KV{"x-vf-bm-bin", rangeBytes(0x00, 0xff, n)})
+		}
+		return out
 	case "grpc-prefixed": // not protocol headers, although they start like some
 		return []KV{{"grpc-trace-bin", rangeBytes(0x00, 0xff, 8+rng.Intn(20))}, {"grpc-tags-bin", []byte{0, 1, 2, 0xfe}},
 			{"grpc-previous-rpc-attempts", []byte("2")}, {"grpc-foo", []byte("bar")}, {"grpc-foo-bin", []byte{0xff, 0x00}}}
@@ -905,6 +948,9 @@ func materialise(rng *rand.Rand, st structure) *Script {
 			s.Unk = unknownKinds[rng.Intn(len(unknownKinds))]
 		}
 	}
+	if s.Front == "http" || s.Front == "web" || s.Front == "ws" {
+		s.BinPad = rng.Intn(2) == 0
+	}
 	if s.Front == "grpc" || s.Front == "web" {
 		if rng.Intn(4) == 0 {
 			s.Unk = unknownKinds[rng.Intn(len(unknownKinds))]
@@ -964,6 +1010,7 @@ func Cases(rng *rand.Rand, thorough bool) []*Script {
 		list = append(list, textScripts(rng, true)...)
 		for k := 0; k < 3; k++ {
 			list = append(list, unkScripts(rng)...)
+			list = append(list, binScripts(rng)...)
 		}
 		// WebSocket scripts: every structure six times; connection-header
 		// scripts: three draws
@@ -1037,6 +1084,7 @@ func Cases(rng *rand.Rand, thorough bool) []*Script {
 	list = append(list, encScripts(rng)...)
 	list = append(list, textScripts(rng, false)...)
 	list = append(list, unkScripts(rng)...)
+	list = append(list, binScripts(rng)...)
 	// connection-header scripts (every class x shape x real / in-process) and
 	// a third of the WebSocket structures
 	list = append(list, hopScripts(rng)...)
